@@ -3,6 +3,8 @@ use crate::engine::runner::Report;
 pub mod c01;
 pub mod c02;
 pub mod c14;
+pub mod c15;
+pub mod c40;
 
 pub type RunFn = fn(&mut Report);
 
@@ -10,6 +12,8 @@ pub const REGISTRY: &[(&str, RunFn)] = &[
     ("C01", c01::run),
     ("C02", c02::run),
     ("C14", c14::run),
+    ("C15", c15::run),
+    ("C40", c40::run),
 ];
 
 pub fn lookup(id: &str) -> Option<(&'static str, RunFn)> {
